@@ -273,6 +273,7 @@ def run_apalache(spec: str, *, init: str, inv: str, length: int, next_: str = 'N
                os.path.join(SPEC_DIR, f'{spec}.tla')]
         penv = dict(os.environ)
         penv['JAVA_TOOL_OPTIONS'] = f'-Djava.io.tmpdir={scratch}'      # (SANY's unpacked standard modules)
+        penv['JVM_ARGS'] = f'-Djava.io.tmpdir={scratch}'
         penv['TMPDIR'] = scratch
         t0 = time.time()
         try:
